@@ -1,4 +1,4 @@
-CONSTANTS LOCSYMSIGHT = 3 PopVIntoConstant = TRUE NamedTmpByLastGlobal = TRUE EmptyMacroPopsOuter = TRUE
+CONSTANTS LOCSYMSIGHT = 3
 INIT TInit
 NEXT TNext
 POSTCONDITION Accepted
